@@ -25,6 +25,13 @@ necessary by a concrete counterexample (`C05_full_statement_false_miss`,
 `C05_full_statement_false_rewire`). Reads under `no_record`, on helper threads, inside
 `catch_unwind(no_record(..))` and through `load_owned` are outside the statement (a tracked hit-only
 run meets none of them), as are assets of types that are not hot-reloaded.
+**Loading establishes and preserves `Settled`** (`C05_load_settles_partial`, over histories of loads and
+`hot_reload`s `C05_history_settled_partial`, combined with a pass `C05_load_edit_reload_converges_partial`):
+after a load and after the reloader has taken its registrations, every registered cached asset —
+those the load cached on the way included — is settled, under the named hypotheses `CleanLoad` (no
+absorbed failure of a nested load, no `get_cached` probe of a key that is cached before the load
+returns) and `NoProbedKeyFilled`; each is necessary (`C05_load_settles_false_absorbed`,
+`C05_load_settles_false_probe`, `C05_load_preserves_false_fill`). No hypothesis on fuel or result.
 -/
 namespace AmVerif.Props.C05
 open AmVerif.Gen AmVerif.Model AmVerif.Lemmas.TopoGraph AmVerif.Lemmas.Topo
@@ -619,7 +626,7 @@ model for `Plain` loaders in an all-hot environment, in two situations (`C05_loa
 `C05_load_settles_false_probe`), and `Settled` is not preserved by a later load in a third
 (`C05_load_preserves_false_fill`). They are excluded by named hypotheses: `CleanLoad` on the load
 (= `cleanRun`: no absorbed failure, no `get_cached` probe of a key that is cached before the load
-returns, no lost insertion) and `NoProbedKeyFilled` relative to what was registered before. -/
+returns) and `NoProbedKeyFilled` relative to what was registered before. Each is necessary. -/
 
 /-- **One API load establishes and preserves `Settled`** (partial: `hclean`, `hfill`).
 
@@ -630,8 +637,8 @@ registered and cached settled, dependency index exact.
   (hot types, cache with reloader: this is what `Env.Hot` and `Prog.Plain` give, required on the path
   only), **no absorbed failure** (when a nested load fails the loader that asked for it does not go on
   to return a value), **no probe of a key that gets filled** (a `get_cached` that finds nothing is for
-  a key still absent when the load returns), **no lost insertion** (the key is not loaded again while
-  its own loader runs);
+  a key still absent when the load returns); a lost keep-first insertion (the key loaded again while
+  its own loader runs) needs no hypothesis;
 * `hfill` — `NoProbedKeyFilled`: the load caches no key that an asset registered before depends on
   while it is absent.
 No hypothesis on the fuel or on the result: the conclusion holds whether the load returns a handle, an
